@@ -260,7 +260,10 @@ def run(tier, replay=None):
                 fam = c['id'].split(':')[0] if not c['id'].startswith(('rand', 'multi', 'asm')) else re.sub(r'\d+', '', c['id'])
                 chk.violation("%s:%s" % (fam, re.sub(r'\d+', 'N', v['why'])), "program %s: %s" % (c['id'], v['why']), {"prog.S" if c['id'].startswith('asm') else "prog.x": c['src']})
             elif v['v'] == 'walk':
-                raise vlib.MachineryError("cannot walk the image of %s against its listing: %s" % (c['id'], v['why']))
+                # the image cannot be read along its -S listing: C17's business (listing against binary); here the program is left unjudged
+                chk.add("programs_whose_listing_does_not_describe_the_image")
+                if not chk.cov.get("unwalkable_example"):
+                    chk.set("unwalkable_example", {"id": c['id'], "why": v['why']})
         binfmt(chk, keep, {r_['id']: r_ for r_ in res if 'dbg' in r_}, d)
         chk.add("states", nlines); chk.add("transitions", nlines)
         chk.set("programs_traced", len(recs)); chk.set("verdicts", dict(cnt))
@@ -272,6 +275,7 @@ def run(tier, replay=None):
         chk.assumptions += ["trace text is parsed by regex; program output is routed to a file stream so stdout carries only trace text",
                             "entries are recovered from the image by AsmLayout!Walk against the -S directive list"]
         chk.vacuity(len(recs) < 300, "too few traces validated (%d)" % len(recs))
+        chk.vacuity(ok < 0.5 * len(recs), "only %d of %d traced programs could be judged" % (ok, len(recs)))
     finally:
         shutil.rmtree(d, ignore_errors=True)
     return chk.finish()
